@@ -19,7 +19,8 @@ var rec = hx.NewRecorder("C13",
 		"schemas: 1-6 type definitions with 1-3 scalar fields and relations (1-1, 1-N, one-sided; self, cycles of length 1-4, tails into/out of cycles, links between cycles) "+
 		"added to fresh nodes in 3-5 variants (type order, field order, partition of the relation-connected components into successive AddSchema calls, repetition); "+
 		"non-trivial = the set has a relation cycle and a type with >=3 relation fields, or the variants differ in call partitioning; distinct = distinct case",
-	"DateTime, Float and Blob values are given as the same text on every route; the Go map route receives the value the text denotes",
+	"DateTime and Blob values are given as the same text on every route; a float is given per route as one of three exact decimal texts (encoding/json form incl. -0 and integer literals, strconv 'g', plain decimal) and the Go map route receives the float64 itself",
+	"inside a JSON-kind value a GraphQL integer literal is a 32-bit Int without a sign of zero, so JSON integers outside int32 and the JSON number -0 are written as float literals (-0.0) on the GraphQL route; NaN/Inf are excluded",
 	"GraphQL Int literals are 32-bit: assignments with larger integers skip the GraphQL routes",
 	"AddSchema documents that a call may not reference types defined by an earlier call, so partitions split only between relation-connected components",
 	"a variant AddSchema rejects is not a variant; a rejected base definition makes the case trivial (only consistency of the rejection is checked)",
@@ -117,6 +118,7 @@ func TestC13Docs(t *testing.T) {
 		if o.commitRoutes >= 2 {
 			labels = append(labels, "doc:genesis-commits-compared")
 		}
+		labels = append(labels, floatLabels(dc)...)
 		for i, fd := range docFields {
 			if i < len(dc.Vals) && !dc.Vals[i].Null {
 				labels = append(labels, "doc:nonnull:"+kindClass(fd.Kind))
